@@ -65,6 +65,14 @@ pub fn components(item: &CorpusItem) -> Vec<(String, Comp)> {
         "metadata_unknown_empty".into(),
         Comp::Meta(MetadataBlockData::new_unknown(5, &[]).expect("HARNESS: metadata")),
     ));
+    // metadata blocks of the standard type tags (1 = PADDING ... 6 = PICTURE), zero-filled and not
+    for tag in 1u8..=6 {
+        for (label, blob) in [("zeros", vec![0u8; 40]), ("data", (0..40u8).map(|i| i.wrapping_mul(29) ^ 0x11).collect::<Vec<u8>>())] {
+            if let Ok(m) = MetadataBlockData::new_unknown(tag, &blob) {
+                out.push((format!("metadata_tag{tag}_{label}"), Comp::Meta(m)));
+            }
+        }
+    }
     // a hand-built residual whose Rice quotients include 64, 65, 128 and 200 (zero runs that are exact
     // multiples of the word size and longer than one word; the encoder rarely produces them on small inputs)
     {
@@ -427,6 +435,22 @@ pub fn run(ctx: &crate::RunCtx) -> (Summary, Vec<Violation>) {
             }
         }
     }
+    // Endurance: 70 000 failing writes of a small frame (plain and precomputed) on ONE thread - whatever the
+    // library counts or accumulates per failure must not tip over (the 65 536th failure is a failure like the first).
+    if ctx.child == 0 {
+        if let Some(item) = corpus::try_build(ctx.seed, 4) {
+            // on a thread of its own, so that the replay (a fresh process, a fresh thread) sees the same history
+            let case = json!({"endurance": {"rounds": 70_000}, "corpus_idx": 4, "spec": item.spec});
+            let (n, ops, v) = on_fresh_thread(|| endurance(&item, 70_000, &case));
+            sum.cases += n;
+            sum.seam_ops += ops;
+            *sum.probes.entry("endurance_failing_writes_on_one_thread".into()).or_default() += n;
+            if let Some(v) = v {
+                *sum.classes.entry(v.class.clone()).or_default() += 1;
+                viols.push(v);
+            }
+        }
+    }
     if ctx.child == 0 {
         let n = corpus::INCONSISTENT.load(std::sync::atomic::Ordering::Relaxed);
         if n > 0 {
@@ -440,7 +464,68 @@ pub fn run(ctx: &crate::RunCtx) -> (Summary, Vec<Violation>) {
     (sum, viols)
 }
 
+/// `rounds` failing writes of the first frame of a corpus item on the calling thread, alternating the plain and
+/// the precomputed form, the failing operation walking through the write. Returns (writes done, sink operations,
+/// first violation); the violation's case records the number of writes needed to reach it.
+fn endurance(item: &corpus::CorpusItem, rounds: usize, case: &serde_json::Value) -> (u64, u64, Option<Violation>) {
+    let Some(f) = item.stream.frame(0) else {
+        return (0, 0, None);
+    };
+    let plain = Comp::Frame(f.clone());
+    let mut fp = f.clone();
+    fp.precompute_bitstream();
+    let pre = Comp::Frame(fp);
+    let (n_plain, n_pre) = (count_ops(&plain, true), count_ops(&pre, true));
+    let (cb, nbits) = clean_bits(&plain);
+    let clean = BitModel::from_bytes(&cb, nbits);
+    let mut ops = 0u64;
+    for round in 0..rounds {
+        let (comp, n, name) = if round % 2 == 0 { (&plain, n_plain, "frame0") } else { (&pre, n_pre, "frame0_precomputed") };
+        let k = round % n.max(1);
+        let mut sink = ReqSink(Core::failing(Some(k), round % 3 == 0));
+        let r = run_on(comp, &mut sink);
+        ops += sink.0.ops as u64;
+        let bad = match &r {
+            Err(c) => Some(("panic", c.site.clone(), c.message.clone())),
+            Ok(Outcome::Ok) if sink.0.errors > 0 => Some(("error_swallowed", String::new(), String::new())),
+            Ok(Outcome::OtherErr(e)) => Some(("wrong_error", String::new(), e.clone())),
+            _ => None,
+        };
+        let before = BitModel {
+            bits: sink.0.model.bits[..sink.0.bits_before_error.unwrap_or(sink.0.model.len())].to_vec(),
+        };
+        let bad = bad.or_else(|| (!before.is_prefix_of(&clean)).then(|| ("not_a_prefix_after_earlier_failure", String::new(), String::new())));
+        if let Some((class, site, message)) = bad {
+            let mut case = case.clone();
+            case["endurance"]["rounds"] = json!(round + 1);
+            return (
+                round as u64 + 1,
+                ops,
+                Some(Violation {
+                    class: class.into(),
+                    site,
+                    message,
+                    detail: format!("failing write number {} on one thread (sink fails at operation {k} of {name})", round + 1),
+                    case,
+                }),
+            );
+        }
+    }
+    (rounds as u64, ops, None)
+}
+
+/// Replays an endurance case on a fresh thread.
+fn exec_endurance(v: &serde_json::Value) -> Result<Option<Violation>, String> {
+    let rounds = v["endurance"]["rounds"].as_u64().unwrap_or(70_000) as usize;
+    let spec: CorpusSpec = serde_json::from_value(v["spec"].clone()).map_err(|e| format!("bad endurance case: {e}"))?;
+    let item = corpus::build_spec(4, spec);
+    Ok(on_fresh_thread(|| endurance(&item, rounds, v)).2)
+}
+
 pub fn exec(case: &serde_json::Value) -> Result<Option<Violation>, String> {
+    if case.get("endurance").is_some() {
+        return exec_endurance(case);
+    }
     let case: Case = serde_json::from_value(case.clone()).map_err(|e| format!("bad C12 case: {e}"))?;
     if let Some(p) = &case.prelude {
         // the earlier failing write on this thread; its own verdict is not this case's
@@ -462,6 +547,9 @@ pub fn exec(case: &serde_json::Value) -> Result<Option<Violation>, String> {
 
 /// Shrinks a violating case: smallest k, then smallest component, that still gives the same class+site.
 pub fn minimise(case: &serde_json::Value, class: &str, site: &str) -> serde_json::Value {
+    if case.get("endurance").is_some() {
+        return case.clone();
+    }
     let Ok(c0) = serde_json::from_value::<Case>(case.clone()) else {
         return case.clone();
     };
